@@ -131,3 +131,18 @@ Fixpoint mismatches_from (i : N) (cs : list case) : list N :=
   | c :: cs' => if case_ok c then mismatches_from (i + 1) cs' else i :: mismatches_from (i + 1) cs'
   end.
 Definition mismatches (cs : list case) : list N := mismatches_from 0 cs.
+
+(* ---- the group registry of the secret store (PutGroup / FetchGroupByPublicKey): the first group
+   written for an identifier stays ---- *)
+Definition registry := list (N * group).
+Fixpoint reg_find (k : N) (r : registry) : option group :=
+  match r with [] => None | (k', g) :: r' => if k =? k' then Some g else reg_find k r' end.
+Definition put_group (r : registry) (k : N) (g : group) : registry :=
+  match reg_find k r with Some _ => r | None => r ++ [(k, g)] end.
+
+(* MultiMemberGroupJoin as the source has it (check, store nothing; the group reaches the registry
+   later, from the account log) and as seeded (store first) *)
+Definition service_join (a : acct) (r : registry) (k : N) (g : group) : acct * registry * bool :=
+  let '(a', ok) := group_join a g in (a', if ok then put_group r k g else r, ok).
+Definition service_join_store_first (a : acct) (r : registry) (k : N) (g : group) : acct * registry * bool :=
+  let '(a', ok) := group_join a g in (a', put_group r k g, ok).
